@@ -114,6 +114,12 @@ func (bs *BatchCacheStub) insertCacheCheckKeys(
 		return
 	}
 
+	// an "ok" reply without an address has nothing to cache (AddrString would index an empty
+	// slice and the panic would fail the whole request, not only the signer's transaction)
+	if len(addrMsg.GetAddress().GetAddress().GetAddress()) == 0 {
+		return
+	}
+
 	addr := addrMsg.GetAddress().GetAddress().AddrString()
 
 	address, err := pb.Marshal(addrMsg.GetAddress().GetAddress())
